@@ -128,3 +128,30 @@ def run(chk):
     chk.run("C14.R1", f"{MOD}:make_cartesian_product", {"dim": 2, "rank": 3}, go_3d, construct="make_cartesian_product (border)")
     for cfg, go, construct in spacetime_batch_obligations(G):
         chk.run("C14.R2", f"{MOD}:CubicMeshPDENonStatio.get_batch", cfg, go, construct=construct)
+    run_factor_batches(chk, G)
+
+
+def run_factor_batches(chk, G):
+    """R3: "each pair exactly once" also needs each FACTOR of the product to hold distinct rows: the time, interior and border
+    batches of the non-stationary generator are slices (with the declared size) of a permutation without replacement of their
+    store - the step decided for every generator kind under C09"""
+    from .C09 import check_draw
+    from ..alg import K, Sym
+    chk.rule("C14.R3", "the time / interior / border batches that enter the product are slices of a permutation without "
+                       "replacement of their stores (no repeated factor row, hence no repeated pair)", floor=3)
+    J = K('J')
+    cases = [
+        ("temporal_batch", {}, lambda: G.nonstatio(2), ('key', 'times', 'curr_time_idx'), K('bt'), K('nt'), None, (K('bt'),)),
+        ("temporal_batch", {"rar": True}, lambda: G.nonstatio(2, rar=True), ('key', 'times', 'curr_time_idx'), K('bt'),
+         K('nt_start') + J * K('sel_t'), Sym('p_times'), (K('bt'),)),
+        ("inside_batch", {}, lambda: G.nonstatio(2), ('key', 'omega', 'curr_omega_idx'), K('bx'), K('n'), None, (K('bx'), 2)),
+        ("inside_batch", {"rar": True}, lambda: G.nonstatio(2, rar=True), ('key', 'omega', 'curr_omega_idx'), K('bx'),
+         K('n_start') + J * K('sel_x'), Sym('p_omega'), (K('bx'), 2)),
+        ("border_batch", {}, lambda: G.nonstatio(2), ('key', 'omega_border', 'curr_omega_border_idx'), K('bb'), K('nb') // 4, None,
+         (K('bb'), 2, 4)),
+    ]
+    for meth, cfg, mk, fields, b, n_eff, p, sizes in cases:
+        chk.run("C14.R3", f"{MOD}:CubicMeshPDENonStatio.{meth}", cfg,
+                (lambda meth=meth, mk=mk, fields=fields, b=b, n_eff=n_eff, p=p, sizes=sizes:
+                 check_draw(mk(), meth, fields, b, n_eff, p, sizes, f"CubicMeshPDENonStatio.{meth}")),
+                construct=f"factor batch {meth}")
